@@ -101,6 +101,9 @@ def _gen_faults(r, plan, paths, in_rel, out_rel, single):
             plan["faults"].append({"kind": "undecodable", "path": victim})
             continue
         if kind == "out_is_dir":
+            if any(k == mp or mp.startswith(k + "/") for k in plan["xdisk"]["files"]):
+                plan["xdisk"]["files"] = {k: v for k, v in plan["xdisk"]["files"].items()
+                                          if not (k == mp or mp.startswith(k + "/"))}
             plan["xdisk"]["dirs"].append(mp)
             f = {"kind": "out_is_dir", "path": victim}
             if r.random() < 0.3:
@@ -111,6 +114,8 @@ def _gen_faults(r, plan, paths, in_rel, out_rel, single):
                 continue
             if any(d == par or d.startswith(par + "/") for d in plan["xdisk"]["dirs"]) or \
                     any(k.startswith(par + "/") for k in plan["xdisk"]["files"]):
+                continue
+            if any(W.mirror(in_rel, out_rel, q) == par for q in paths):
                 continue
             plan["xdisk"]["files"][par] = "i am a file\n"
             f = {"kind": "out_parent_is_file", "path": victim, "blocker": par}
